@@ -32,6 +32,44 @@ type script struct {
 type backend struct {
 	mu  sync.Mutex
 	cur script
+	// the uploads in progress: ID -> bytes received so far.  The backend keeps them as a real
+	// registry does (ocimem): what a request wrote stays written when its commit fails, and a
+	// resumed upload refuses data at an offset other than its size with RANGE_INVALID.  So a
+	// request that a layer REPLAYS after the scripted failure (a BlobWriter.Close that flushes
+	// the chunk a failed Commit left behind) is answered with an error of the backend's own,
+	// not with the scripted one: a layer that reports the secondary error instead of the
+	// first one changes the identity the caller sees.
+	uploads map[string]*upload
+	nextID  int
+}
+
+type upload struct {
+	size int64
+}
+
+func (b *backend) upload(id string) *upload {
+	b.mu.Lock()
+	defer b.mu.Unlock()
+	return b.uploadLocked(id)
+}
+
+func (b *backend) uploadLocked(id string) *upload {
+	if b.uploads == nil {
+		b.uploads = map[string]*upload{}
+	}
+	u := b.uploads[id]
+	if u == nil {
+		u = &upload{}
+		b.uploads[id] = u
+	}
+	return u
+}
+
+// forget drops the uploads of the calls made so far.
+func (b *backend) forget() {
+	b.mu.Lock()
+	b.uploads = nil
+	b.mu.Unlock()
 }
 
 func (b *backend) set(s script) {
@@ -64,27 +102,42 @@ func (b *backend) at(point string) error {
 // scriptWriter is the BlobWriter the innermost backend hands out.  Its type name appears in
 // the text handleBlobCompleteUpload produces ("failed to copy data to *main.scriptWriter").
 type scriptWriter struct {
-	b    *backend
-	size int64
+	b  *backend
+	id string
+	u  *upload
+	// start is the offset the next Write must be at (-1 = no check), as ocimem's Buffer has it
+	start int64
 }
 
 func (w *scriptWriter) Write(p []byte) (int, error) {
 	if err := w.b.at("Write"); err != nil {
 		return 0, err
 	}
-	w.size += int64(len(p))
+	w.b.mu.Lock()
+	defer w.b.mu.Unlock()
+	if w.start != -1 {
+		if w.u.size != w.start {
+			return 0, fmt.Errorf("invalid offset %d in resumed upload (actual offset %d): %w", w.start, w.u.size, ociregistry.ErrRangeInvalid)
+		}
+		w.start = -1
+	}
+	w.u.size += int64(len(p))
 	return len(p), nil
 }
-func (w *scriptWriter) Close() error   { return w.b.at("Close") }
-func (w *scriptWriter) Size() int64    { return w.size }
+func (w *scriptWriter) Close() error { return w.b.at("Close") }
+func (w *scriptWriter) Size() int64 {
+	w.b.mu.Lock()
+	defer w.b.mu.Unlock()
+	return w.u.size
+}
 func (w *scriptWriter) ChunkSize() int { return 1 }
-func (w *scriptWriter) ID() string     { return "uid-1" }
+func (w *scriptWriter) ID() string     { return w.id }
 func (w *scriptWriter) Cancel() error  { return nil }
 func (w *scriptWriter) Commit(d ociregistry.Digest) (ociregistry.Descriptor, error) {
 	if err := w.b.at("Commit"); err != nil {
 		return ociregistry.Descriptor{}, err
 	}
-	return ociregistry.Descriptor{MediaType: "application/octet-stream", Digest: d, Size: w.size}, nil
+	return ociregistry.Descriptor{MediaType: "application/octet-stream", Digest: d, Size: w.Size()}, nil
 }
 
 type memReader struct {
@@ -172,17 +225,18 @@ func (b *backend) funcs() *ociregistry.Funcs {
 			if err := b.at("PushBlobChunked"); err != nil {
 				return nil, err
 			}
-			return &scriptWriter{b: b}, nil
+			b.mu.Lock()
+			b.nextID++
+			id := fmt.Sprintf("uid-%d", b.nextID)
+			u := b.uploadLocked(id)
+			b.mu.Unlock()
+			return &scriptWriter{b: b, id: id, u: u, start: 0}, nil
 		},
 		PushBlobChunkedResume_: func(ctx context.Context, repo, id string, offset int64, chunkSize int) (ociregistry.BlobWriter, error) {
 			if err := b.at("PushBlobChunkedResume"); err != nil {
 				return nil, err
 			}
-			w := &scriptWriter{b: b}
-			if offset > 0 {
-				w.size = offset
-			}
-			return w, nil
+			return &scriptWriter{b: b, id: id, u: b.upload(id), start: offset}, nil
 		},
 		MountBlob_: func(ctx context.Context, fromRepo, toRepo string, d ociregistry.Digest) (ociregistry.Descriptor, error) {
 			return desc("MountBlob")
@@ -256,9 +310,41 @@ type wireRec struct {
 	Body   []byte `json:"body"`
 }
 
+// inflight counts the handlers of a chain that are running.  Every request inside a chain is
+// made by the caller or by a running handler, so "the caller is back and no handler runs" means
+// that nothing of the call is left that could reach a server (or the backend) later.
+type inflight struct {
+	mu sync.Mutex
+	n  int
+}
+
+func (f *inflight) add(d int) {
+	f.mu.Lock()
+	f.n += d
+	f.mu.Unlock()
+}
+
+// wait returns when no handler of the chain is running.
+func (f *inflight) wait() {
+	for {
+		f.mu.Lock()
+		n := f.n
+		f.mu.Unlock()
+		if n == 0 {
+			return
+		}
+		time.Sleep(200 * time.Microsecond)
+	}
+}
+
+// recorder keeps the responses of one level in the order in which the REQUESTS ARRIVED (a slot
+// is taken when the handler starts and filled when it returns).  The order in which handlers
+// finish is not usable: net/http may flush a large response before the handler returns, so the
+// client can be back, and its next request answered, before the first handler has finished.
 type recorder struct {
 	mu   sync.Mutex
-	recs []wireRec
+	recs []*wireRec
+	fl   *inflight
 }
 
 func (r *recorder) reset() {
@@ -267,25 +353,19 @@ func (r *recorder) reset() {
 	r.mu.Unlock()
 }
 
-// first returns the first error response since the last reset: the failure that propagates
-// (a handler's deferred BlobWriter.Close may provoke further, ignored, failures below it).
-//
-// The record is appended when the handler returns; net/http may have flushed a large response
-// before that, so the client can be back first: wait for the record for a while.
+// first returns the error response to the first request (in arrival order) since the last reset
+// that was answered with one: the failure that propagates (a handler's deferred BlobWriter.Close
+// may provoke further, ignored, failures below it; those requests are made after the response
+// to the first one was received).  To be called when the chain is quiet (inflight.wait).
 func (r *recorder) first() (wireRec, bool) {
-	for i := 0; ; i++ {
-		r.mu.Lock()
-		if len(r.recs) > 0 {
-			rec := r.recs[0]
-			r.mu.Unlock()
-			return rec, true
+	r.mu.Lock()
+	defer r.mu.Unlock()
+	for _, rec := range r.recs {
+		if rec.Status >= 400 || rec.Status < 0 {
+			return *rec, true
 		}
-		r.mu.Unlock()
-		if i >= 400 {
-			return wireRec{}, false
-		}
-		time.Sleep(5 * time.Millisecond)
 	}
+	return wireRec{}, false
 }
 
 type recWriter struct {
@@ -313,20 +393,27 @@ func (w *recWriter) Write(p []byte) (int, error) {
 
 func (r *recorder) wrap(h http.Handler) http.Handler {
 	return http.HandlerFunc(func(w http.ResponseWriter, req *http.Request) {
+		r.fl.add(1)
+		defer r.fl.add(-1)
+		slot := &wireRec{Method: req.Method}
+		r.mu.Lock()
+		r.recs = append(r.recs, slot)
+		r.mu.Unlock()
 		rw := &recWriter{ResponseWriter: w}
 		defer func() {
 			if p := recover(); p != nil {
 				r.mu.Lock()
-				r.recs = append(r.recs, wireRec{Method: req.Method, Status: -1, Body: []byte(fmt.Sprint(p))})
+				slot.Status, slot.Body = -1, []byte(fmt.Sprint(p))
 				r.mu.Unlock()
 				panic(p)
 			}
+			r.mu.Lock()
+			slot.Status = rw.status
 			if rw.status >= 400 {
-				r.mu.Lock()
-				r.recs = append(r.recs, wireRec{Method: req.Method, Status: rw.status,
-					CType: rw.Header().Get("Content-Type"), Body: append([]byte(nil), rw.body.Bytes()...)})
-				r.mu.Unlock()
+				slot.CType = rw.Header().Get("Content-Type")
+				slot.Body = append([]byte(nil), rw.body.Bytes()...)
 			}
+			r.mu.Unlock()
 		}()
 		h.ServeHTTP(rw, req)
 	})
@@ -342,6 +429,7 @@ type chain struct {
 	servers []*httptest.Server
 	recs    []*recorder
 	clients []ociregistry.Interface
+	fl      *inflight
 }
 
 // The chain configurations.  "" is ociserver's default.  "quirks" switches on, at every level,
@@ -363,10 +451,10 @@ var configs = []string{"", "quirks", "auth"}
 var authChallenges = []string{`Basic realm="c07 level 1"`, `Negotiate`, `Basic realm="c07 level 3", charset="UTF-8"`}
 
 func newChain(cfg string) *chain {
-	c := &chain{cfg: cfg, b: &backend{}}
+	c := &chain{cfg: cfg, b: &backend{}, fl: &inflight{}}
 	var inner ociregistry.Interface = c.b.funcs()
 	for i := 0; i < maxHops; i++ {
-		rec := &recorder{}
+		rec := &recorder{fl: c.fl}
 		var opts *ociserver.Options
 		if cfg == "quirks" {
 			o := ociserver.Options{
